@@ -76,12 +76,7 @@ def check(fx, rep, tier):
                           'ReadConnection awaits a future other than ReadHalf::read: %s' % [t['callee'].get('def') for t in bad])
                 # one suspension between the read call and the recording store
                 for rb, rt in C.calls_to(co, trait='socket::ReadHalf', name='read'):
-                    tr = co.trace(rt['args'][1])
-                    read_cursor = None
-                    if tr.get('kind') == 'call':
-                        rng = co.trace(tr['args'][1])
-                        if rng.get('kind') == 'aggr':
-                            read_cursor = C.trace_field(co, rng['rv']['ops'][0], RC)
+                    read_cursor = C.read_cursor_of(co, rt, RC)
                     advances = [b for b, i, s in C.field_stores(co, RC, read_cursor)
                                 if not (s['rv']['k'] == 'use' and mir.op_is_const(s['rv']['op']))] if read_cursor else []
                     if not advances:
